@@ -152,9 +152,9 @@ Section Scale.
     destruct u as [sx sy sz srx sry srz sh n1 n2 k1 rf ap co], r as [x y z L M N i w opd].
     unfold localize. rfields. foldsc. unfold k_translate. scnorm.
     destruct (nonzero srx), (nonzero sry), (nonzero srz); rfields; foldsc;
-    try (rewrite rotate_x_scale; destruct (k_rotate_x O _ _ _ _ _) as [[[? ?] ?] ?]; rfields; foldsc);
-    try (rewrite rotate_y_scale; destruct (k_rotate_y O _ _ _ _ _) as [[[? ?] ?] ?]; rfields; foldsc);
-    try (rewrite rotate_z_scale; destruct (k_rotate_z O _ _ _ _ _) as [[[? ?] ?] ?]; rfields; foldsc);
+    try (rewrite rotate_x_scale; match goal with |- context [k_rotate_x O ?a ?b ?c ?d ?e] => destruct (k_rotate_x O a b c d e) as [[[? ?] ?] ?] end; rfields; foldsc);
+    try (rewrite rotate_y_scale; match goal with |- context [k_rotate_y O ?a ?b ?c ?d ?e] => destruct (k_rotate_y O a b c d e) as [[[? ?] ?] ?] end; rfields; foldsc);
+    try (rewrite rotate_z_scale; match goal with |- context [k_rotate_z O ?a ?b ?c ?d ?e] => destruct (k_rotate_z O a b c d e) as [[[? ?] ?] ?] end; rfields; foldsc);
     reflexivity.
   Qed.
 
@@ -163,9 +163,9 @@ Section Scale.
     destruct u as [sx sy sz srx sry srz sh n1 n2 k1 rf ap co], r as [x y z L M N i w opd].
     unfold globalize. rfields. foldsc.
     destruct (nonzero srx), (nonzero sry), (nonzero srz); rfields; foldsc;
-    try (rewrite rotate_z_scale; destruct (k_rotate_z O _ _ _ _ _) as [[[? ?] ?] ?]; rfields; foldsc);
-    try (rewrite rotate_y_scale; destruct (k_rotate_y O _ _ _ _ _) as [[[? ?] ?] ?]; rfields; foldsc);
-    try (rewrite rotate_x_scale; destruct (k_rotate_x O _ _ _ _ _) as [[[? ?] ?] ?]; rfields; foldsc);
+    try (rewrite rotate_z_scale; match goal with |- context [k_rotate_z O ?a ?b ?c ?d ?e] => destruct (k_rotate_z O a b c d e) as [[[? ?] ?] ?] end; rfields; foldsc);
+    try (rewrite rotate_y_scale; match goal with |- context [k_rotate_y O ?a ?b ?c ?d ?e] => destruct (k_rotate_y O a b c d e) as [[[? ?] ?] ?] end; rfields; foldsc);
+    try (rewrite rotate_x_scale; match goal with |- context [k_rotate_x O ?a ?b ?c ?d ?e] => destruct (k_rotate_x O a b c d e) as [[[? ?] ?] ?] end; rfields; foldsc);
     unfold k_translate; scnorm; reflexivity.
   Qed.
 
